@@ -136,6 +136,7 @@ func (fc *FnCtx) havocAssigned(st *State, n ast.Node, heap bool) {
 		na := fc.freshSort("alloc", SInt)
 		fc.assume(st, boolT(fmt.Sprintf("(>= %s %s)", na.S, cur.S)))
 		fc.set(st, allocKey, na)
+		fc.structValsAllocated(st)
 	}
 }
 
@@ -420,6 +421,9 @@ func (fc *FnCtx) assign(st *State, lhs ast.Expr, val Term, rhs ast.Expr) {
 		}
 		val = fc.storeConv(st, val, nil, obj.Type())
 		if vo, ok := obj.(*types.Var); ok && vo.Pkg() != nil && vo.Parent() == vo.Pkg().Scope() {
+			if fc.eng.guardOf[vo] != nil {
+				fc.guardAccess(st, vo, true, l.Pos())
+			}
 			fc.get(st, vo, sortOf(vo.Type()), vo.Type())
 			fc.set(st, vo, val)
 			return
@@ -440,10 +444,16 @@ func (fc *FnCtx) assign(st *State, lhs ast.Expr, val Term, rhs ast.Expr) {
 	case *ast.IndexExpr:
 		xt := fc.typeOf(l.X)
 		if mt, ok := xt.Underlying().(*types.Map); ok {
+			if gv := fc.guardedIdent(l.X); gv != nil {
+				fc.guardAccess(st, gv, true, l.Pos())
+			}
 			m := fc.expr(st, l.X)
 			k := fc.valueFor(st, l.Index, mt.Key())
 			if fc.safe {
 				fc.safeAssert(st, "nilmap", boolT(fmt.Sprintf("(not (= %s 0))", m.S)), l.Pos(), exprText(fc.prog.Fset, l))
+			} else if m.S != "0" {
+				// outside safe mode panics are assumed absent: a store into a map that does not panic was into a non-nil map
+				fc.assume(st, boolT(fmt.Sprintf("(not (= %s 0))", m.S)))
 			}
 			val = fc.storeConv(st, val, nil, mt.Elem())
 			fc.mapWrite(st, m, mt, k, val)
@@ -992,6 +1002,7 @@ func (fc *FnCtx) doReturn(st *State, vals []Term, pos token.Pos, text string) {
 	fc.runDefers(st)
 	// anchored "at return" clauses, then postconditions
 	fc.runAnchors(st, "return", "", ord, pos, nil)
+	fc.guardReturn(st, ord, pos)
 	fc.assertPkgInvs(st, fmt.Sprintf("return#%d", ord), pos)
 	for i, en := range fc.contract.Ensures {
 		t := fc.contractExprAt(st, en, token.NoPos)
